@@ -118,7 +118,10 @@ P = {
          "KNOWN FINDINGS F14 (lists) and F30 (existence of empty structures) are reported as KNOWN-FINDING and attributed narrowly."),
  "C16": ("Fault enumeration: every mutation point inside Merge (create, truncate, each record write with torn prefixes, sync, remove) of "
          "generated pre-merge histories over key/value data, sets and sorted sets is rebuilt, opened with the real Open and compared with the "
-         "pre-Merge observation. Rocq: C10's theorems cover each rewrite transaction; Merge model as in C15.",
+         "pre-Merge observation (mergecrash; mergecrashpos with position-dependent sorted-set removals demonstrates known finding F31). Rocq "
+         "(MergeCrash.v): for every reachable world and EVERY directory a crash inside Merge can leave, Open rebuilds the same live key/value "
+         "pairs (at clocks not earlier than the Merges') and the same set members; the sorted-set statement is false (F31 witnesses proved). "
+         "C10's theorems cover each rewrite transaction.",
          "KNOWN FINDINGS F30 (attributed) and F31 (position-dependent records; the profile avoids them, witness in known_findings.json)."),
  "C19": ("Rocq theorems: reopen_preserves holds for ANY option record; key-only mode reads = key+value mode reads on on_disk worlds; the "
          "byte-level scan recovers the same records under FileIO and MMap. Tie: every history under all 16 option combinations, result "
@@ -140,7 +143,7 @@ P = {
 }
 TECH = "Rocq (Coq 8.16.1) proof over an executable Gallina model + differential correspondence model vs code"
 TIED = {"C01", "C04", "C05", "C06", "C07", "C12", "C13", "C15", "C20", "C21"}
-cat = {"C09": "proof", "C16": "fault_enumeration"}
+cat = {"C09": "proof", "C16": "proof"}
 checks = []
 for pid in sorted(P):
     text, note = P[pid]
